@@ -284,7 +284,9 @@ Inductive cause :=
 | CErr           (* handler / supervisor-event handler returned Err or panicked *)
 | CStopKill      (* graceful exit, then a kill while post_stop is parked *)
 | CPreStartFail  (* pre_start returned Err / panicked: the guard cleans up, no event *)
-| CPostStartFail (* post_start failed *).
+| CPostStartFail (* post_start failed *)
+| CPreStartKill  (* kill signal while pre_start is running: handle_signal, then the guard, no event *)
+| CPostStartKill (* kill signal while post_start is running *).
 
 Definition guard_cleanup (ev sup : bool) : list instr :=
   [ISet Stopping; ITerminate] ++ (if ev && sup then [INotifySup] else [])
@@ -298,6 +300,8 @@ Definition exit_prog (c : cause) (sup : bool) : list instr :=
   | CStopKill => [IGate 0; ISet Stopping; IPsEnter; IGate 2; IPsCancel; ITerminate] ++ guard_cleanup true sup
   | CPreStartFail => [IGate 0] ++ guard_cleanup false false
   | CPostStartFail => [IGate 0] ++ guard_cleanup true sup
+  | CPreStartKill => [IGate 0; ITerminate] ++ guard_cleanup false false
+  | CPostStartKill => [IGate 0; ITerminate] ++ guard_cleanup true sup
   end.
 
 (* ---------- snapshots and the executable property ---------- *)
@@ -390,7 +394,7 @@ Definition check_C06 (want_ps want_sup complete : bool) (l : list obs) : bool :=
 Definition want_ps_of (c : cause) : bool :=
   match c with CStop | CStopKill => true | _ => false end.
 Definition want_sup_of (c : cause) (sup : bool) : bool :=
-  match c with CPreStartFail => false | _ => sup end.
+  match c with CPreStartFail | CPreStartKill => false | _ => sup end.
 
 (* ---------- E1 schedules: everything runs until it blocks ---------- *)
 Fixpoint repeat_l {A} (x : list A) (n : nat) : list A :=
